@@ -502,6 +502,26 @@ func main() {
 		}
 	}
 
+	// 4b. rate limiter: two sources that are both out of tokens, rejected at the same time by many goroutines (every
+	// rejection builds and reports its own error: Retry-After / X-Retry-In are read while other rejections happen)
+	{
+		scenarios++
+		rates := ratelimit.NewRateSet()
+		_ = rates.Add(time.Hour, 1, 1)
+		extract, _ := utils.NewExtractor("client.ip")
+		tl, _ := ratelimit.New(ok, extract, rates)
+		for _, src := range []string{"10.0.2.1", "10.0.2.2"} {
+			tl.ServeHTTP(httptest.NewRecorder(), request(src))
+		}
+		parallel(G, N, func(gi, i int) {
+			rec := httptest.NewRecorder()
+			tl.ServeHTTP(rec, request(fmt.Sprintf("10.0.2.%d", 1+(gi+i)%2)))
+			if rec.Code != 429 || rec.Header().Get("X-Retry-In") == "" {
+				fail("TokenLimiter: a request of a source without tokens was answered %d (X-Retry-In %q)", rec.Code, rec.Header().Get("X-Retry-In"))
+			}
+		})
+	}
+
 	// 5. connection limiter: after everything finished the full limit is available again
 	{
 		scenarios++
